@@ -1,5 +1,6 @@
 import TF.Proofs.PolyMul
 import TF.Proofs.PolySpecNtt
+import TF.Proofs.PolyNttBridge
 /-!
 # C07 — every polynomial multiplication strategy returns the exact ring product
 
@@ -273,5 +274,136 @@ example : RootCompat (RingHom.id ℚ) exampleRoot exampleRoot := by
   intro n; cases h : exampleRoot n <;> simp
 
 end Mixed
+
+/-! ### the base field, unconditionally: the products on top of the model of the Rust in-place NTT (property C06)
+
+`bNtt = nttTransform bOps primitiveRoot` wraps `TF.Model.Ntt.ntt` / `intt` — the executable model of the loops of
+`math/ntt.rs` (bit-reversal swap loop, one butterfly pass per stage, root from the translated table `PRIMITIVE_ROOTS`)
+— as the transform parameter; this is the transform the driver runs for the family `poly` (`TB`).  `bfieldOps` is the
+integer arithmetic modulo `P` on naturals (`TF/Spec/Field.lean`; its agreement with `BFieldElement` is C01's
+`field_iso`).  `bdenote a` is the polynomial over `ZMod P` with coefficients `a` read modulo `P`; `CanonL a` says that
+all entries are canonical (`< P`).  No `TransformSpec` / `RootOK` hypothesis is left: they are theorems
+(`ntt_model_transform_spec`, `primitive_roots_rootOK`) obtained from C06's `ntt_eq_dft` / `intt_ntt` /
+`primitive_roots_table`.  Every result is canonical, so it is determined as a list of naturals up to stored leading
+zeros. -/
+section BField
+open TF.Gen TF.NttProofs TF.Model.Poly.Hom
+
+/-- the polynomial over `ZMod P` a list of naturals stands for -/
+noncomputable def bdenote (a : List Nat) : (ZMod P)[X] := denote (a.map zc)
+
+/-- all entries canonical -/
+def CanonL (a : List Nat) : Prop := ∀ x ∈ a, x < P
+
+/-- `RootOK` for the real table: the root tabulated in `PRIMITIVE_ROOTS` for `2^(k+1)`, read in `ZMod P`, has
+    `2^k`-th power `−1` — for the look-up of the NTT model (`primitiveRoot`) and for `bfieldOps.rootOfUnity`,
+    which agree on every argument -/
+theorem primitive_roots_rootOK :
+    RootOK zRoot ∧ RootOK (fun n => (TF.bfieldOps.rootOfUnity n).map zc) ∧
+    ∀ n, TF.bfieldOps.rootOfUnity n = TF.Model.Ntt.primitiveRoot n :=
+  ⟨zRoot_ok, bfieldRoot_ok, bfieldRoot_eq⟩
+example : zRoot (2 ^ (0 + 1)) = some ((18446744069414584320 : ℕ) : ZMod P) := by
+  have : TF.Model.Ntt.primitiveRoot (2 ^ (0 + 1)) = some 18446744069414584320 := by decide
+  rw [zRoot, this]; rfl
+
+/-- **the model of the Rust in-place NTT is an evaluation / interpolation pair**: over every field `K`, run with the
+    ring operations of `K`, any `inverse`/`inverse_or_zero` that invert, and any root table with `RootOK`:
+    `ntt` evaluates at `pts n i = ω_n^i`, panics depending on the length only, and `intt ∘ ntt = id` -/
+theorem ntt_model_transform_spec (inv : K → Option K) (inv0 : K → K) (hI : InvOK inv inv0) (hroot : RootOK root) :
+    TransformSpec (nttTransform (ringOps K inv inv0) root) (rootPts root) :=
+  nttTransform_spec inv inv0 root hI hroot
+example : InvOK zinv zinv0 ∧ RootOK zRoot := ⟨zInvOK, zRoot_ok⟩
+
+/-- … in particular over `ZMod P` with the translated table — no hypothesis left -/
+theorem ntt_model_transform_spec_bfield : TransformSpec zNtt (rootPts zRoot) := zNtt_spec
+example : zNtt.ntt [] = some [] := by
+  have : TF.Model.Ntt.primitiveRoot 0 = some 1 := by decide
+  simp [zNtt, nttTransform, ntt_empty, zRoot, this]
+
+/-- the transform on canonical values (the one the driver runs) is the transform over `ZMod P` read through
+    `Nat.cast`, and its inverse returns canonical values -/
+theorem bNtt_is_zNtt (xs : List Nat) :
+    (bNtt.ntt xs).map (List.map zc) = zNtt.ntt (xs.map zc) ∧ (bNtt.intt xs).map (List.map zc) = zNtt.intt (xs.map zc) ∧
+    ∀ ys, bNtt.intt xs = some ys → CanonL ys :=
+  ⟨(bNtt_cast xs).1, (bNtt_cast xs).2, bNtt_intt_canon xs⟩
+example : bNtt.ntt [1, 4, 0, 0] = some [5, 1125899906842625, 18446744069414584318, 18445618169507741698] := by
+  decide +kernel
+
+theorem bdenote_eq (r : List Nat) : bdenote r = denote (r.map zc) := rfl
+
+/-- **`fast_multiply` over `BFieldElement`**: on canonical operands of every degree and storage, whenever it returns
+    it returns canonical coefficients of the product in `ZMod P[X]` -/
+theorem fast_multiply_bfield_spec (a b r : List Nat) (ha : CanonL a) (hb : CanonL b)
+    (h : fastMultiply TF.bfieldOps bNtt a b = some r) : bdenote r = bdenote a * bdenote b ∧ CanonL r := by
+  have hm := fastMultiply_map bfield_opsMap bNtt_transMap a b ha hb
+  rw [h] at hm
+  exact ⟨fast_multiply_spec zRoot zNtt_spec _ _ _ hm.symm,
+    fastMultiply_ok bNtt_transMap a b r h⟩
+example : fastMultiply TF.bfieldOps bNtt [1, 1, 0] [2] = some [2, 2] := by decide +kernel
+
+/-- `multiply` over `BFieldElement`, every threshold -/
+theorem multiply_bfield_spec (threshold : Int) (a b r : List Nat) (ha : CanonL a) (hb : CanonL b)
+    (h : multiply TF.bfieldOps threshold bNtt a b = some r) : bdenote r = bdenote a * bdenote b ∧ CanonL r := by
+  have hm := multiply_map bfield_opsMap bNtt_transMap threshold a b ha hb
+  rw [h] at hm
+  exact ⟨multiply_spec zRoot zNtt_spec threshold _ _ _ hm.symm,
+    multiply_ok bfield_opsMap bNtt_transMap threshold a b r h⟩
+example : multiply TF.bfieldOps 1 bNtt [1, 1] [P - 1, 1] = some [P - 1, 0, 1] := by decide +kernel
+
+/-- `fast_square` over `BFieldElement` -/
+theorem fast_square_bfield_spec (p r : List Nat) (hp : CanonL p)
+    (h : fastSquare TF.bfieldOps bNtt p = some r) : bdenote r = bdenote p ^ 2 ∧ CanonL r := by
+  have hm := fastSquare_map bfield_opsMap bNtt_transMap p hp
+  rw [h] at hm
+  exact ⟨fast_square_spec zRoot zNtt_spec _ _ hm.symm,
+    fastSquare_ok bfield_opsMap bNtt_transMap p r h⟩
+example : fastSquare TF.bfieldOps bNtt [1, 1, 0] = some [1, 2, 1] := by decide +kernel
+
+/-- `square` over `BFieldElement`, every cut-off -/
+theorem square_bfield_spec (cutoff : Nat) (p r : List Nat) (hp : CanonL p)
+    (h : square TF.bfieldOps cutoff bNtt p = some r) : bdenote r = bdenote p ^ 2 ∧ CanonL r := by
+  have hm := square_map bfield_opsMap bNtt_transMap cutoff p hp
+  rw [h] at hm
+  exact ⟨square_spec zRoot zNtt_spec cutoff _ _ hm.symm,
+    square_ok bfield_opsMap bNtt_transMap cutoff p r h⟩
+example : square TF.bfieldOps 2 bNtt [1, 1] = some [1, 2, 1] ∧ square TF.bfieldOps 64 bNtt [1, 1] = some [1, 2, 1] := by
+  decide +kernel
+
+/-- `fast_pow` over `BFieldElement`, every exponent, cut-off and threshold -/
+theorem fast_pow_bfield_spec (sqCutoff : Nat) (threshold : Int) (p : List Nat) (e : Nat) (r : List Nat)
+    (hp : CanonL p) (h : fastPow TF.bfieldOps sqCutoff threshold bNtt p e = some r) :
+    bdenote r = bdenote p ^ e ∧ CanonL r := by
+  obtain ⟨hm, hok⟩ := fastPow_map bfield_opsMap bNtt_transMap sqCutoff threshold p hp e
+  rw [h] at hm
+  exact ⟨fast_pow_spec zRoot zNtt_spec sqCutoff threshold _ e _ hm.symm, hok r h⟩
+example : fastPow TF.bfieldOps 0 0 bNtt [1, 1] 3 = some [1, 3, 3, 1] := by decide +kernel
+
+theorem map_bdenote (factors : List (List Nat)) :
+    (factors.map (List.map zc)).map denote = factors.map bdenote := by
+  simp [List.map_map, Function.comp_def, bdenote]
+
+/-- `batch_multiply` over `BFieldElement`: the product of all factors, any list, any threshold -/
+theorem batch_multiply_bfield_spec (threshold : Int) (factors : List (List Nat)) (r : List Nat)
+    (hf : ∀ p ∈ factors, CanonL p) (h : batchMultiply TF.bfieldOps threshold bNtt factors = some r) :
+    bdenote r = (factors.map bdenote).prod ∧ CanonL r := by
+  obtain ⟨hm, hok⟩ := batchMultiply_map bfield_opsMap bNtt_transMap threshold factors hf
+  rw [h] at hm
+  refine ⟨?_, hok r h⟩
+  rw [bdenote_eq, batch_multiply_spec zRoot zNtt_spec threshold _ _ hm.symm, map_bdenote]
+example : batchMultiply TF.bfieldOps 0 bNtt [[1, 1], [1, 1], [P - 1, 1]] = some [P - 1, P - 1, 1, 1] := by
+  decide +kernel
+
+/-- `par_batch_multiply` over `BFieldElement`: every thread count -/
+theorem par_batch_multiply_bfield_spec (threshold : Int) (numThreads : Nat) (factors : List (List Nat)) (r : List Nat)
+    (hf : ∀ p ∈ factors, CanonL p) (h : parBatchMultiply TF.bfieldOps threshold bNtt numThreads factors = some r) :
+    bdenote r = (factors.map bdenote).prod ∧ CanonL r := by
+  obtain ⟨hm, hok⟩ := parBatchMultiply_map bfield_opsMap bNtt_transMap threshold numThreads factors hf
+  rw [h] at hm
+  refine ⟨?_, hok r h⟩
+  rw [bdenote_eq, par_batch_multiply_spec zRoot zNtt_spec threshold numThreads _ _ hm.symm, map_bdenote]
+example : parBatchMultiply TF.bfieldOps 0 bNtt 2 [[1, 1], [1, 1], [P - 1, 1]] = some [P - 1, P - 1, 1, 1] := by
+  decide +kernel
+
+end BField
 
 end TF.C07
